@@ -28,10 +28,19 @@ Canonical(e) ==
    \* equal forms iff same class; for large symbols the class key is only the lineage (two covers of different symbols
    \* may well be isomorphic), so only "same class => same form" is required of them
    /\ LET k == Key(e) IN \A p \in table : IF e.big THEN (p[1] = k => p[2] = e.out) ELSE ((p[1] = k) <=> (p[2] = e.out))
+\* family event: one symbol and several renumberings of it, judged on its own (no workspace): every member's form is a
+\* relabelling of the member (witness map, else search), a fixed point, and ALL members have the same form
+MemberOK(m) == /\ CompleteSym(m.in) /\ CompleteSym(m.out) /\ m.fix = m.out
+               /\ (IF Len(m.map) = m.in.n /\ IsRenumbering(m.in, m.out, m.map) THEN TRUE ELSE Isomorphic(m.in, m.out))
+Family(e) == /\ Connected(e.members[1].in)
+             /\ \A k \in 1..Len(e.members) : "panic" \notin DOMAIN e.members[k] /\ MemberOK(e.members[k]) /\ e.members[k].out = e.members[1].out
+             /\ \A k \in 2..Len(e.members) : Len(e.members[k].perm) = e.members[1].in.n /\ IsRenumbering(e.members[1].in, e.members[k].in, e.members[k].perm)
 Next == /\ l <= Len(Rec)
-        /\ ("panic" \notin DOMAIN Rec[l] /\ Canonical(Rec[l])) = TRUE
-        /\ table' = table \cup {<<Key(Rec[l]), Rec[l].out>>}
-        /\ base' = (IF Rec[l].big /\ Rec[l].lin.perm = <<>> THEN base \cup {<<Rec[l].lin.class, Rec[l].in>>} ELSE base)
+        /\ IF Rec[l].ev = "canonical_family"
+           THEN ("panic" \notin DOMAIN Rec[l] /\ Family(Rec[l])) = TRUE /\ UNCHANGED <<table, base>>
+           ELSE /\ ("panic" \notin DOMAIN Rec[l] /\ Canonical(Rec[l])) = TRUE
+                /\ table' = table \cup {<<Key(Rec[l]), Rec[l].out>>}
+                /\ base' = (IF Rec[l].big /\ Rec[l].lin.perm = <<>> THEN base \cup {<<Rec[l].lin.class, Rec[l].in>>} ELSE base)
         /\ l' = l + 1
 Spec == Init /\ [][Next]_vars
 Accepted == LET d == TLCGet("stats").diameter IN
